@@ -79,6 +79,9 @@ EXC_KINDS = {
     "SystemExit": SystemExit,
     "GeneratorExit": GeneratorExit,
     "SimFault": SimFault,
+    "OverflowError": OverflowError,               # what math.exp / float ** produce on a wide box
+    "FloatingPointError": FloatingPointError,     # numpy under np.errstate(over="raise")
+    "LibraryIndexError": IndexError,              # raised inside library code (see world.on_objective_call)
 }
 
 
